@@ -71,6 +71,7 @@ type Share struct {
 	c       *Ctx
 	val     map[ssa.Value]tt
 	extra   map[ssa.Value]uint8
+	cellTop map[*ssa.Alloc]uint8 // for cells holding one pointer-like value (slice, map, pointer, interface): join of the tops stored
 	field   map[*types.Var]tt
 	param   map[*ssa.Parameter]tt
 	free    map[*ssa.FreeVar]tt
@@ -96,7 +97,7 @@ func shareAnalysis(c *Ctx) *Share {
 	if shareCache != nil && shareCache.c == c {
 		return shareCache
 	}
-	s := &Share{c: c, val: map[ssa.Value]tt{}, extra: map[ssa.Value]uint8{}, field: map[*types.Var]tt{}, param: map[*ssa.Parameter]tt{},
+	s := &Share{c: c, val: map[ssa.Value]tt{}, extra: map[ssa.Value]uint8{}, cellTop: map[*ssa.Alloc]uint8{}, field: map[*types.Var]tt{}, param: map[*ssa.Parameter]tt{},
 		free: map[*ssa.FreeVar]tt{}, ret: map[*ssa.Function]tt{}, capOut: map[*ssa.Parameter]uint8{}, familyOf: map[*ssa.Function][]*ssa.Function{}, docish: map[types.Type]bool{}}
 	s.setT = c.lookupType(pkgBsonkit, "Set")
 	s.regs = readRegistries(c)
@@ -368,10 +369,43 @@ func (s *Share) capture(target ssa.Value, t uint8) {
 			}
 		}
 	}
+	// a local cell reached as an address (not through a load of its content) may have its content replaced
+	for _, a := range directCells(target, 0) {
+		if isScalarCell(a) && s.cellTop[a]&t != t {
+			s.cellTop[a] |= t
+			s.changed = true
+		}
+	}
 	// captured into a field of a repo struct
 	if fa := fieldAddrRoot(target); fa != nil && s.repoStruct(fa.X.Type()) {
 		s.addField(structFieldOf(fa), tt{0, t})
 	}
+}
+
+// directCells: the local cells v may be the address of (no loads on the way).
+func directCells(v ssa.Value, depth int) []*ssa.Alloc {
+	if depth > 8 {
+		return nil
+	}
+	switch x := v.(type) {
+	case *ssa.Alloc:
+		return []*ssa.Alloc{x}
+	case *ssa.Phi:
+		var out []*ssa.Alloc
+		for _, e := range x.Edges {
+			out = append(out, directCells(e, depth+1)...)
+		}
+		return out
+	case *ssa.MakeInterface:
+		return directCells(x.X, depth+1)
+	case *ssa.ChangeType:
+		return directCells(x.X, depth+1)
+	case *ssa.ChangeInterface:
+		return directCells(x.X, depth+1)
+	case *ssa.TypeAssert:
+		return directCells(x.X, depth+1)
+	}
+	return nil
 }
 
 func fieldAddrRoot(v ssa.Value) *ssa.FieldAddr {
@@ -432,6 +466,10 @@ func (s *Share) loadFrom(addr ssa.Value) tt {
 		return tt{base.deep, base.deep}
 	case *ssa.Alloc:
 		e := s.extra[a]
+		if isScalarCell(a) {
+			// the cell holds one slice / map / pointer / interface: its outermost container is whatever was stored
+			return tt{s.cellTop[a], e}
+		}
 		return tt{e, e}
 	case *ssa.FreeVar:
 		t := s.free[a]
@@ -464,6 +502,10 @@ func (s *Share) storeTo(fn *ssa.Function, in ssa.Instruction, addr ssa.Value, v 
 			s.extra[a] |= v.deep
 			s.changed = true
 		}
+		if s.cellTop[a]&v.top != v.top {
+			s.cellTop[a] |= v.top
+			s.changed = true
+		}
 	case *ssa.FreeVar:
 		old := s.free[a]
 		nw := old.join(tt{0, v.deep})
@@ -475,6 +517,20 @@ func (s *Share) storeTo(fn *ssa.Function, in ssa.Instruction, addr ssa.Value, v 
 		s.capture(addr, v.deep)
 		s.rawMutation(fn, in, addr, "store through pointer")
 	}
+}
+
+// isScalarCell: a local variable cell whose content is a single pointer-like value (not an aggregate
+// that is written piecewise through FieldAddr/IndexAddr).
+func isScalarCell(a *ssa.Alloc) bool {
+	pt, ok := a.Type().Underlying().(*types.Pointer)
+	if !ok {
+		return false
+	}
+	switch pt.Elem().Underlying().(type) {
+	case *types.Slice, *types.Map, *types.Pointer, *types.Interface:
+		return true
+	}
+	return false
 }
 
 // rawMutation: a store into a container that is not a local allocation.
